@@ -63,8 +63,15 @@ func (bi *BasmInstance) bodyMacros(body *bmline.BasmBody) error {
 					fmt.Println(yellow("\t\t\t\t\t") + macroLine.String())
 				}
 			}
-			body.Lines = append(body.Lines[:i], append(macroLines, body.Lines[i+1:]...)...)
-			i += len(macroLines)
+			// Build the new line list in a fresh slice: macroLines is the macro's own body, appending
+			// to it would overwrite the body for the next call
+			newLines := make([]*bmline.BasmLine, 0, len(body.Lines)+len(macroLines))
+			newLines = append(newLines, body.Lines[:i]...)
+			newLines = append(newLines, macroLines...)
+			newLines = append(newLines, body.Lines[i+1:]...)
+			body.Lines = newLines
+			// Go on with the line that followed the call (the loop adds one)
+			i += len(macroLines) - 1
 		}
 	}
 	return nil
